@@ -72,7 +72,7 @@ let empty_world = { w_bal = []; w_supply = []; w_tlend = []; w_tborrow = []; w_t
 
 type newrec = { orig : string; amt : string; ty : string; den : string }
 
-type track = { mutable age : int; n : int; mutable m : int; mutable c : int; mutable quiet : bool }
+type track = { mutable age : int; n : int; mutable m : int; mutable c : int; mutable quiet : bool; mutable short : bool; mutable reported : bool }
 
 let bridge_name (b : borrow_in) = match bridge_of b with SamePool -> "same" | FirstTransit -> "first" | SecondTransit -> "second"
 
@@ -100,6 +100,7 @@ let run (path : string) =
   let new_auc : (string * string) list ref = ref [] in
   let ext_expect : (BinNums.coq_Z * BinNums.coq_Z) option ref = ref None in
   let tracked : (string, track) Hashtbl.t = Hashtbl.create 16 in
+  let tracked5 : (string, track) Hashtbl.t = Hashtbl.create 16 in
   let end_case () =
     if !case <> "" then begin
       incr cases;
@@ -138,8 +139,17 @@ let run (path : string) =
         if unsafe_and_live then begin
           match Hashtbl.find_opt tracked id with
           | Some t -> t.age <- t.age + 1
-          | None -> Hashtbl.replace tracked id { age = 1; n; m = n; c = 0; quiet = true }
-        end else Hashtbl.remove tracked id) !inputs in
+          | None -> Hashtbl.replace tracked id { age = 1; n; m = n; c = 0; quiet = true; short = false; reported = false }
+        end else Hashtbl.remove tracked id;
+        (* the property's own hypotheses (whether or not the visit can complete): hypotheses + above threshold *)
+        let hyp_unsafe = live_hyp_borrow i.x.b && i.unsafe && BinInt.Z.geb impl_batch (zi 1) in
+        if hyp_unsafe then begin
+          let short = (i.v <> VSeize) && kf_C09_5 i.x.b in
+          (match Hashtbl.find_opt tracked5 id with
+           | Some t -> t.age <- t.age + 1; if short then t.short <- true
+           | None -> Hashtbl.replace tracked5 id { age = 1; n; m = n; c = 0; quiet = true; short; reported = false });
+          if short then bump "live:pool-short-visit"
+        end else Hashtbl.remove tracked5 id) !inputs in
   let live_post (impl_batch : BinNums.coq_Z) (liq_now : string list) =
     let judge id (t : track) age =
       let age = zi age in
@@ -155,7 +165,18 @@ let run (path : string) =
          | Some t -> bump (Printf.sprintf "live:seized-in-block=%d" (min t.age 30)); judge id t t.age
          | None -> ());
         Hashtbl.remove tracked id) done_;
-    Hashtbl.iter (fun id t -> judge id t (t.age + 1)) tracked in
+    Hashtbl.iter (fun id t -> judge id t (t.age + 1)) tracked;
+    (* class C09-F5: hypotheses hold and the borrow is unsafe for longer than the bound because the pool was
+       short of its collateral during the wait (the strict tracker above restarts at every such block) *)
+    L.iter (fun id -> Hashtbl.remove tracked5 id) (Hashtbl.fold (fun id _ acc -> if L.mem id liq_now then id :: acc else acc) tracked5 []);
+    Hashtbl.iter (fun id t ->
+        let age = zi (t.age + 1) in
+        let ok = if t.quiet then holds_C09_live_borrow_quiet age (zi t.n) impl_batch else holds_C09_live_borrow age (zi t.m) (zi t.c) impl_batch in
+        if not ok && t.short && not t.reported then begin
+          t.reported <- true;
+          predfail ~case:!case ~step:!step ~pred:"holds_C09_live_borrow" ~kf:"kf_C09_5"
+            ~detail:(Printf.sprintf "borrow=%s_unsafe_with_every_hypothesis_for_%s_blocks_not_seized:_its_pool_is_short_of_the_recorded_collateral" id (zs age))
+        end) tracked5 in
   L.iter (fun line ->
       match tokens line with
       | [ "case"; id; k; b ] ->
@@ -163,7 +184,7 @@ let run (path : string) =
         case := id; kind := k; batch := z_of_string b;
         m_ids := []; m_liq := []; m_off0 := BinNums.Z0; m_off1 := BinNums.Z0; inputs := []; last_inputs := [];
         prev_s_ref := None; cur_s_ref := None; prev_w := None; last_op := "init"; step := 0; dead := false; seized_any := false;
-        Hashtbl.reset tracked; ext_expect := None;
+        Hashtbl.reset tracked; Hashtbl.reset tracked5; ext_expect := None;
         Buffer.clear sig_; Buffer.add_string sig_ (k ^ ":" ^ b ^ ";");
         bump ("batch=" ^ b); bump ("kind=" ^ (if S.length k >= 6 && S.sub k 0 6 = "bridge" then "bridge" else k))
       | _ when !dead -> ()
@@ -174,6 +195,7 @@ let run (path : string) =
       | "op" :: "white" :: _ -> nstep "white"
       | "op" :: "skip" :: _ -> nstep "skip"
       | "op" :: "drain" :: _ -> nstep "drain"
+      | "op" :: "refill" :: _ -> nstep "refill"
       | "op" :: "draw" :: _ -> nstep "draw"
       | "op" :: "repay" :: _ -> nstep "repay"
       | [ "op"; "borrow"; _pair; _amt; _pm; _st; cls; id ] ->
@@ -181,14 +203,15 @@ let run (path : string) =
         if cls = "ok" then begin
           (* the new id joins the list somewhere (its pool-asset group): the position is read off the projection *)
           last_op := "borrow-ok:" ^ id;
-          Hashtbl.iter (fun _ t -> t.m <- t.m + 1; t.c <- t.c + 1; t.quiet <- false) tracked
+          Hashtbl.iter (fun _ t -> t.m <- t.m + 1; t.c <- t.c + 1; t.quiet <- false) tracked;
+          Hashtbl.iter (fun _ t -> t.m <- t.m + 1; t.c <- t.c + 1; t.quiet <- false) tracked5
         end
       | [ "op"; "close"; id; cls ] ->
         nstep "close"; bump ("close:" ^ cls);
         if cls = "ok" then begin
           m_ids := L.filter (fun x -> zs x <> id) !m_ids;
-          Hashtbl.remove tracked id;
-          Hashtbl.iter (fun _ t -> t.quiet <- false) tracked
+          Hashtbl.remove tracked id; Hashtbl.remove tracked5 id;
+          Hashtbl.iter (fun _ t -> t.quiet <- false) tracked; Hashtbl.iter (fun _ t -> t.quiet <- false) tracked5
         end
       | [ "op"; "govbatch"; v; cls ] ->
         nstep "govbatch";
